@@ -64,7 +64,9 @@ func c15Templates() []c15Template {
 		T("map-chain", func(a *ast.Node) *ast.Node {
 			return ast.N(ast.Chain, a, ast.CallN("map", ast.BlockN(ast.N(ast.Chain, ast.VarN("string"), ast.VarN("length")))))
 		}),
-		T("filter-index", func(a *ast.Node) *ast.Node { return ast.CallN("filter", a, lam([]string{"v", "i"}, ast.BinN("!=", i, ast.NumN(1)))) }),
+		T("filter-index", func(a *ast.Node) *ast.Node {
+			return ast.CallN("filter", a, lam([]string{"v", "i"}, ast.BinN("!=", i, ast.NumN(1))))
+		}),
 		T("filter-value", func(a *ast.Node) *ast.Node { return ast.CallN("filter", a, isOne) }),
 		T("filter-truthy", func(a *ast.Node) *ast.Node { return ast.CallN("filter", a, ast.VarN("boolean")) }),
 		T("filter-arr", func(a *ast.Node) *ast.Node {
@@ -77,7 +79,9 @@ func c15Templates() []c15Template {
 		T("reduce-append", func(a *ast.Node) *ast.Node { return ast.CallN("reduce", a, ast.VarN("append")) }),
 		T("single-one", func(a *ast.Node) *ast.Node { return ast.CallN("single", a, isOne) }),
 		T("single-all", func(a *ast.Node) *ast.Node { return ast.CallN("single", a, lam([]string{"v"}, ast.BoolN(true))) }),
-		T("single-index", func(a *ast.Node) *ast.Node { return ast.CallN("single", a, lam([]string{"v", "i"}, ast.BinN("=", i, ast.NumN(2)))) }),
+		T("single-index", func(a *ast.Node) *ast.Node {
+			return ast.CallN("single", a, lam([]string{"v", "i"}, ast.BinN("=", i, ast.NumN(2))))
+		}),
 		T("append-self", func(a *ast.Node) *ast.Node { return ast.CallN("append", a, a.Clone()) }),
 		T("append-scalar", func(a *ast.Node) *ast.Node { return ast.CallN("append", a, ast.NumN(5)) }),
 		T("append-to-scalar", func(a *ast.Node) *ast.Node { return ast.CallN("append", ast.NumN(5), a) }),
